@@ -122,11 +122,28 @@ def accumulate(F, var, env=None, is_cursor=False):
 
 
 def local_env(F):
+    """single-definition locals with a linear initialiser, substituted where they are used: sound when nothing the initialiser
+    mentions is written after the definition (within the function, in source order - a definition inside a loop body is
+    re-evaluated on every iteration)"""
     env = {}
+    writes = {}
+    for n in F.walk():
+        tgt = None
+        if n["k"] in ("BinaryOperator", "CompoundAssignOperator") and n.get("op", "").endswith("=") and n["op"] not in ("==", "!=", "<=", ">="):
+            tgt = strip(n["c"][0])
+        elif n["k"] == "UnaryOperator" and n["op"] in ("++", "--"):
+            tgt = strip(n["c"][0])
+        if tgt is not None and tgt["k"] == "DeclRefExpr":
+            writes.setdefault(tgt["name"], []).append(n["id"])
     for n in sorted(F.walk(), key=lambda x: x["id"]):
-        if n["k"] == "VarDecl" and n.get("c") and n["name"] in ("to_copy", "argument_size"):
-            f = L.lin(n["c"][0], {})
-            if f is not None:
+        if n["k"] == "VarDecl" and n.get("c") and n["name"] not in writes:
+            f = L.lin(n["c"][0], env)
+            if f is None:
+                continue
+            names = {x["name"] for x in walk_nodes(n["c"][0]) if x["k"] == "DeclRefExpr"}
+            if any(w > n["id"] for nm in names for w in writes.get(nm, [])):
+                continue
+            if all(isinstance(k, int) or isinstance(k, str) for k in f):
                 env[n["name"]] = f
     return env
 
